@@ -4,7 +4,7 @@ import os
 
 from . import refinterp as I
 from . import refparse as P
-from .common import WORK, Stats, Violation, collect, finish, hx, pmap, shim
+from .common import WORK, Stats, Violation, collect, finish, hx, pmap, shim, strip_sgr
 from .eng_debug import P49, P65, P66, P67, PROGRAMS, push
 from .eng_exec import A20, HORIZON, ref_trace
 from .eng_optdiff import big, loop_program, push_value
@@ -219,7 +219,13 @@ def sessions_task(name, sessions):
             st.inc('cut')
             continue
         data = ''.join(l + '\n' for l in lines)
-        r = sh.child('repl', hx(data), 10)
+        color = name.endswith('+color')
+        if color:
+            r = sh.child('repl', hx(data), 10, 'always')
+            r.out, r.err = strip_sgr(r.out), strip_sgr(r.err)
+            st.inc('sessions_with_colour')
+        else:
+            r = sh.child('repl', hx(data), 10)
         st.inc('sessions')
         st.inc('transitions', len(lines))
         if len(st.samples) < 3 and sum(len(l) for l in lines) < 300:
@@ -403,6 +409,8 @@ def run_c12(tier):
     lf = labelflow_family()
     for i in range(0, len(lf), 100):
         tasks.append(('incr', [], [], 0, ['ab\nc'], lf[i:i + 100]))
+    # the same sessions with `--color always` (every 4th): colour sequences removed, the text must be the same
+    tasks += [('sessions', t[1] + '+color', t[2][::4]) for t in tasks if t[0] == 'sessions']
     collect(st, pmap(_task, [(t,) for t in tasks]))
     cov = {
         'states': sum(v.get('commands', 0) for v in info.values()),
@@ -415,7 +423,8 @@ def run_c12(tier):
                 'prompts, exit status). Library level: execute() fed command by command vs the whole-program reference run on '
                 'all programs over A20 up to the length bound.',
         'scope': {'programs': info, 'noise_lines': NOISE, 'incr_alphabet': alpha, 'incr_max_len': n,
-                  'incr_runs': st.n.get('incr_runs', 0), 'sessions': st.n.get('sessions', 0), 'cut': st.n.get('cut', 0)},
+                  'incr_runs': st.n.get('incr_runs', 0), 'sessions': st.n.get('sessions', 0),
+                  'sessions_repeated_with_colour_always': st.n.get('sessions_with_colour', 0), 'cut': st.n.get('cut', 0)},
         'distinct_outcomes': {'session_status': sorted(st.sets.get('status', ())), 'incr_ends': sorted(st.sets.get('ends', ()))},
         'samples': [['형 흣....💕 형. 하앙...', '흣. 흑...', '흣....!💕'], ['형.', 'clear', '형.']],
     }
